@@ -47,3 +47,19 @@ def concrete_inputs(model):
     mp = {l: i for i, l in enumerate(labels)}
     k = slice(None if key.get('start') is None else str(key['start']), None if key.get('stop') is None else str(key['stop']), key.get('step'))
     return dict(label_to_pos=mp.get, key=k, labels=None, offset=model.get('offset'), _map=mp)
+
+
+# ---- LocMap.loc_to_iloc: a label (or a list of labels) is translated through the map, label by label, in key order, shifted by the level offset ----
+# (opaque labels: an instance of none of the special-cased classes -- datetime64 keys, arrays and Boolean selections are outside this contract;
+#  absent labels: the KeyError of the map look-up inside the comprehension is not modelled, the labels are required to be held)
+contract(INDEX, 'LocMap.loc_to_iloc',
+    props=['C04', 'C02'],
+    params=dict(offset='opt[int]', partial_selection='bool'), order=[], kwonly=['label_to_pos', 'labels', 'positions', 'key', 'offset', 'partial_selection'],
+    defaults=dict(offset='None', partial_selection='False'),
+    variants=[dict(key='list[elem]'), dict(key='elem')],
+    requires=['not partial_selection'],
+    requires_variant={0: ['forall_in(0, len(key), lambda i: ube("held", at(key, i)))'], 1: ['ube("held", key)']},
+    calls={'label_to_pos.__getitem__': dict(params=dict(k='elem'), order=['k'], result='int', result_expr='ufi("pos", k)')},
+    ensures_variant={0: ['len(result) == len(key)', f'forall_in(0, len(key), lambda i: at(result, i) == ufi("pos", at(key, i)) + {_OFF})'],
+                     1: [f'result == ufi("pos", key) + {_OFF}']},
+    ensures=[])
